@@ -312,6 +312,18 @@ fn run_map(a: &Attributes, stats: &mut BTreeMap<String, u64>) -> CaseOut {
             if a.is_empty() != bytes.is_empty() {
                 o.oracle.push(format!("empty map <-> zero bytes violated: {} entries, {} bytes", a.len(), bytes.len()));
             }
+            // the same blob is what both file formats store for the Attributes property
+            if bytes.len() < 20_000 {
+                *stats.entry("file_format_blob_checks".into()).or_insert(0) += 1;
+                let (xml, bin) = blobs_in_files(a);
+                for (fmt, r) in [("XML", xml), ("binary", bin)] {
+                    match r {
+                        Ok(b) if b == bytes => {}
+                        Ok(b) => o.oracle.push(format!("the {fmt} file stores a different blob for the Attributes property ({} bytes, to_writer gives {})", b.len(), bytes.len())),
+                        Err(e) => o.oracle.push(format!("could not locate the Attributes blob in the {fmt} file: {e}")),
+                    }
+                }
+            }
             let d = decode(&bytes);
             o.obs.push(format!("dec {}", dec_string(&d)));
             match d {
@@ -363,6 +375,81 @@ fn run_bytes(bytes: &[u8], d: Dec, stats: &mut BTreeMap<String, u64>) -> CaseOut
         )),
     }
     o
+}
+
+// ------------------------------------------------------------------------------------------ the blob inside the file formats
+
+fn unbase64(text: &str) -> Option<Vec<u8>> {
+    let mut out = Vec::new();
+    let (mut acc, mut bits) = (0u32, 0u32);
+    for c in text.bytes() {
+        let v = match c {
+            b'A'..=b'Z' => c - b'A',
+            b'a'..=b'z' => c - b'a' + 26,
+            b'0'..=b'9' => c - b'0' + 52,
+            b'+' => 62,
+            b'/' => 63,
+            b'=' | b'\n' | b'\r' | b' ' | b'\t' => continue,
+            _ => return None,
+        };
+        acc = acc << 6 | v as u32;
+        bits += 6;
+        if bits >= 8 {
+            bits -= 8;
+            out.push((acc >> bits) as u8);
+            acc &= (1 << bits) - 1;
+        }
+    }
+    Some(out)
+}
+
+fn find(hay: &[u8], needle: &[u8]) -> Option<usize> {
+    hay.windows(needle.len()).position(|w| w == needle)
+}
+
+/// the bytes both file formats store for an `Attributes` property holding `a`:
+/// (payload of the XML `<BinaryString name="AttributesSerialize">`, the String cell of the binary PROP chunk)
+fn blobs_in_files(a: &Attributes) -> (Result<Vec<u8>, String>, Result<Vec<u8>, String>) {
+    use rbx_dom_weak::{InstanceBuilder, WeakDom};
+    let mut dom = WeakDom::new(InstanceBuilder::new("DataModel"));
+    let root = dom.root_ref();
+    let folder = dom.insert(root, InstanceBuilder::new("Folder").with_property("Attributes", Variant::Attributes(a.clone())));
+    let xml = (|| {
+        let mut buf = Vec::new();
+        rbx_xml::to_writer_default(&mut buf, &dom, &[folder]).map_err(|e| format!("xml writer: {e}"))?;
+        let open = b"<BinaryString name=\"AttributesSerialize\"";
+        let at = find(&buf, open).ok_or("no AttributesSerialize element in the XML file")?;
+        let rest = &buf[at + open.len()..];
+        if rest.starts_with(b"/>") || rest.starts_with(b" />") {
+            return Ok(Vec::new());
+        }
+        let gt = rest.iter().position(|c| *c == b'>').ok_or("unterminated tag")?;
+        let body = &rest[gt + 1..];
+        let end = find(body, b"</BinaryString>").ok_or("no end tag")?;
+        let mut text = String::from_utf8_lossy(&body[..end]).to_string();
+        if let Some(t) = text.strip_prefix("<![CDATA[").and_then(|t| t.strip_suffix("]]>")) {
+            text = t.to_string();
+        }
+        unbase64(&text).ok_or_else(|| "payload is not base64".to_string())
+    })();
+    let bin = (|| {
+        let mut buf = Vec::new();
+        rbx_binary::Serializer::new()
+            .compression_type(rbx_binary::CompressionType::None)
+            .serialize(&mut buf, &dom, &[folder])
+            .map_err(|e| format!("binary writer: {e}"))?;
+        let mut key = vec![19u8, 0, 0, 0];
+        key.extend_from_slice(b"AttributesSerialize");
+        key.push(0x01); // binary type id String
+        let at = find(&buf, &key).ok_or("no AttributesSerialize String column in the binary file")?;
+        let p = at + key.len();
+        if p + 4 > buf.len() {
+            return Err("truncated column".to_string());
+        }
+        let len = u32::from_le_bytes([buf[p], buf[p + 1], buf[p + 2], buf[p + 3]]) as usize;
+        buf.get(p + 4..p + 4 + len).map(|s| s.to_vec()).ok_or_else(|| "truncated column".to_string())
+    })();
+    (xml, bin)
 }
 
 fn opt_id(x: Option<u8>) -> String {
@@ -761,7 +848,7 @@ fn approx_model(bits: u32) -> Option<i32> {
         None // NaN compares false twice
     } else if a <= 0x3400_0000 {
         Some(0)
-    } else if a <= 0x3F80_0001 {
+    } else if (0x3F7F_FFFE..=0x3F80_0001).contains(&a) {
         Some(if bits >> 31 == 1 { -1 } else { 1 })
     } else {
         None
@@ -810,7 +897,7 @@ fn sweep(thorough: bool, seed: u64) -> (u64, Vec<String>) {
                 }
             }
         }
-        for c in [0x3400_0000u32, 0x3F80_0000, 0x7F80_0000, 0x3F00_0000, 0x4000_0000] {
+        for c in [0x3400_0000u32, 0x3F80_0000, 0x3F7F_FFFE, 0x7F80_0000, 0x3F00_0000, 0x4000_0000] {
             for d in 0..8192u32 {
                 for s in [0u32, 0x8000_0000] {
                     check((c.wrapping_add(d).wrapping_sub(4096)) & 0x7FFF_FFFF | s, &mut bad);
